@@ -180,8 +180,9 @@ Section Exit.
   Lemma lll_loop_exit_inv fuel : forall s s', exit_inv s -> lll_loop L fuel s = Some s' ->
     exit_inv s' /\ (nr s' <= step s')%nat.
   Proof.
-    induction fuel as [|f IH]; intros s s' HI; cbn [lll_loop]; destruct (Nat.ltb_spec (step s) (nr s)); try discriminate;
-      try (intros H; injection H as <-; split; [exact HI|assumption]).
+    induction fuel as [|f IH]; intros s s' HI; cbn [lll_loop];
+      destruct (Nat.ltb_spec (step s) (nr s)) as [Hlt|Hge]; try discriminate;
+      try (intros H; injection H as <-; split; [exact HI|exact Hge]).
     destruct (lll_iterate L s) as [s1|] eqn:E; [|discriminate]. cbn [obind].
     apply IH. now apply (lll_iterate_exit_inv s).
   Qed.
